@@ -49,7 +49,12 @@ typedef struct {
     int16_t* max_rep;
     int32_t* leaf_indices;
     int32_t leaf_idx;
+    int32_t depth;      /* current recursion depth */
+    bool too_deep;      /* nesting exceeded CARQUET_MAX_SCHEMA_DEPTH */
 } schema_traverse_ctx_t;
+
+/* Nesting limit for schemas read from files (bounds the recursion depth) */
+#define CARQUET_MAX_SCHEMA_DEPTH 256
 
 /**
  * Recursively traverse schema tree and compute definition/repetition levels.
@@ -68,6 +73,10 @@ static int32_t traverse_schema_recursive(
 
     if (element_idx >= ctx->num_elements) {
         return element_idx;
+    }
+    if (ctx->depth >= CARQUET_MAX_SCHEMA_DEPTH) {
+        ctx->too_deep = true;
+        return ctx->num_elements;  /* stop the traversal */
     }
 
     const parquet_schema_element_t* elem = &ctx->elements[element_idx];
@@ -104,10 +113,14 @@ static int32_t traverse_schema_recursive(
     }
 
     /* Group node - recursively process children */
+    /* num_children comes from the file: stop when the element list is exhausted */
     int32_t next_idx = element_idx + 1;
-    for (int32_t child = 0; child < elem->num_children; child++) {
+    ctx->depth++;
+    for (int32_t child = 0;
+         child < elem->num_children && next_idx < ctx->num_elements; child++) {
         next_idx = traverse_schema_recursive(ctx, next_idx, this_def, this_rep);
     }
+    ctx->depth--;
 
     return next_idx;
 }
@@ -132,7 +145,7 @@ static int32_t traverse_schema_recursive(
  *       ├── f (required, int32)    -> def=1, rep=1  (from parent e)
  *       └── g (optional, int32)    -> def=2, rep=1  (from e + self)
  */
-static void compute_levels(
+static bool compute_levels(
     const parquet_schema_element_t* elements,
     int32_t num_elements,
     int16_t* max_def,
@@ -140,7 +153,7 @@ static void compute_levels(
     int32_t* leaf_indices) {
 
     if (num_elements <= 1) {
-        return;  /* Empty or root-only schema */
+        return true;  /* Empty or root-only schema */
     }
 
     schema_traverse_ctx_t ctx = {
@@ -149,7 +162,9 @@ static void compute_levels(
         .max_def = max_def,
         .max_rep = max_rep,
         .leaf_indices = leaf_indices,
-        .leaf_idx = 0
+        .leaf_idx = 0,
+        .depth = 0,
+        .too_deep = false
     };
 
     /* Start traversal from root (index 0) with zero levels.
@@ -157,9 +172,11 @@ static void compute_levels(
      * We process its children starting at index 1. */
     const parquet_schema_element_t* root = &elements[0];
     int32_t next_idx = 1;
-    for (int32_t child = 0; child < root->num_children; child++) {
+    for (int32_t child = 0;
+         child < root->num_children && next_idx < num_elements; child++) {
         next_idx = traverse_schema_recursive(&ctx, next_idx, 0, 0);
     }
+    return !ctx.too_deep;
 }
 
 carquet_schema_t* build_schema(
@@ -187,9 +204,12 @@ carquet_schema_t* build_schema(
         return NULL;
     }
 
-    compute_levels(schema->elements, schema->num_elements,
-                   schema->max_def_levels, schema->max_rep_levels,
-                   schema->leaf_indices);
+    if (!compute_levels(schema->elements, schema->num_elements,
+                        schema->max_def_levels, schema->max_rep_levels,
+                        schema->leaf_indices)) {
+        CARQUET_SET_ERROR(error, CARQUET_ERROR_INVALID_SCHEMA, "Schema nesting too deep");
+        return NULL;
+    }
 
     return schema;
 }
